@@ -339,14 +339,18 @@ class MessageManager(interfaces.TokenInterface, interfaces.MessageManager):
 
         if retransmission_counter < message.transport_tuning.MAX_RETRANSMIT:
             self.log.info("Retransmission, Message ID: %d.", message.mid)
-            self._send_via_transport(message)
             retransmission_counter += 1
             timeout *= 2
 
+            # The exchange is put back before the message is handed to the
+            # transport: a transport that refuses it reports the error from
+            # inside send(), and dispatch_error must find (and end) this
+            # exchange rather than have it resurrected without backlog entry
             next_retransmission = self._schedule_retransmit(
                 message, timeout, retransmission_counter
             )
             self._active_exchanges[key] = (messageerror_monitor, next_retransmission)
+            self._send_via_transport(message)
         else:
             self.log.info("Exchange timed out trying to transmit %s", message)
             del self._backlogs[message.remote]
